@@ -246,7 +246,17 @@ def run(ck, F):
         tn = og.nf_str(CE.expand(fields["target_namespace"]))
         label = "xml-ref" if is_xml else "ref" if is_ref else "named"
         if label == "named":
-            ok_x = xn.startswith("Ok⟨ok_or_else(attribute(node, 'name'))")
+            # the `name` attribute of the declaration itself, however its absence is turned into an error
+            cur_ = CE.expand(fields["xml_name"])
+            for _ in range(12):
+                if cur_[0] == "payload":
+                    cur_ = cur_[2]
+                elif cur_[0] == "call" and cur_[2] and str(cur_[1]).rsplit("::", 1)[-1] in ("ok_or", "ok_or_else", "to_string", "to_owned", "into", "as_str", "clone", "expect", "unwrap"):
+                    cur_ = cur_[2][0]
+                else:
+                    break
+            ok_x = (cur_[0] == "call" and str(cur_[1]).rsplit("::", 1)[-1] == "attribute" and len(cur_[2]) == 2
+                    and cur_[2][0] == ("param", "node") and cur_[2][1] == ("lit", "name"))
             ok_t = tn == "doc.current_target_namespace"
         elif label == "ref":
             ok_x = "xml_name(" in xn and "find_node_by_xml_name" in xn
